@@ -17,7 +17,7 @@ c_PhaseSets12 == {<<"g", "l">>, <<"l">>, <<"L", "l">>, <<"L", "g">>, <<"g", "l",
 c_Phases == {"l", "g"}
 c_OpsC01 == {"mix_from", "split_to", "separate_out", "copy_flow", "empty", "set_flow", "set_phases"}
 c_OpsC12 == {"set_flow", "set_phases", "set_phase", "reduce_phases", "as_stream", "get_eq", "view_write", "save", "restore"}
-c_OpsC13 == {"copy", "copy_like", "proxy", "flow_proxy", "link_with", "unlink", "set_flow", "set_T", "set_phase"}
+c_OpsC13 == {"construct", "copy", "pickle", "copy_like", "proxy", "flow_proxy", "link_with", "unlink", "set_flow", "set_T", "set_phase"}
 Depth4 == TLCGet("level") <= 4
 Depth5 == TLCGet("level") <= 5
 Depth6 == TLCGet("level") <= 6
